@@ -56,6 +56,18 @@ uint8_t* vp_map(size_t n)
     return (uint8_t*)p;
 }
 
+/* n bytes at exactly this address, or NULL when the range is not free (MAP_FIXED_NOREPLACE) */
+#ifndef MAP_FIXED_NOREPLACE
+#define MAP_FIXED_NOREPLACE 0x100000
+#endif
+uint8_t* vp_map_at(uint64_t addr, size_t n)
+{
+    void* p = mmap((void*)(uintptr_t)addr, roundup(n ? n : 1), PROT_READ | PROT_WRITE, MAP_PRIVATE | MAP_ANONYMOUS | MAP_FIXED_NOREPLACE, -1, 0);
+    if (p == MAP_FAILED) return 0;
+    if ((uintptr_t)p != (uintptr_t)addr) { munmap(p, roundup(n ? n : 1)); return 0; }
+    return (uint8_t*)p;
+}
+
 void vp_unmap(uint8_t* p, size_t n) { if (p) munmap(p, roundup(n ? n : 1)); }
 
 /* [guard page][data pages][guard page]; returns pointer so that p+n is the trailing guard */
